@@ -117,8 +117,47 @@ class ProgProp:
             return ctx.pool.ref(v).call("compile", src=case["src"], dis=True)
         return ctx.pool.ref(v).call("compile_file", path=case["path"], dis=True)
 
+    corpus_aspects = ()
+
+    def fixed_cases(self, ctx):
+        if self.corpus_aspects:
+            for rel in pd.corpus_files():
+                if "dropbox" not in rel:
+                    yield {"k": "corpus", "path": rel}
+
+    def judge_corpus_internal(self, case, ctx):
+        """corpus files (incl. versions with no interpreter): oracles internal to the decoded stream"""
+        res = Result()
+        path = os.path.join(pd.CORPUS_DIR, case.get("path", ""))
+        if not os.path.isfile(path) or os.path.getsize(path) > (40000 if ctx.tier == "quick" else 10 ** 6):
+            res.reject = "corpus-file-too-big-for-tier"
+            return res
+        try:
+            d = rw.x_dump_file(path=path, want_dis=True, max_code=self.max_code(ctx))
+        except Exception as e:
+            res.reject = "xdis-cannot-load(C01's subject):%s" % type(e).__name__
+            return res
+        vs = ".".join(str(p) for p in d["header"]["version"][:2])
+        c = pd.Cmp(vs)
+        c.version = vs + ("pypy" if d["header"]["is_pypy"] else "")
+        c.codeinfo = []
+        for i, co in enumerate(d["dis"]):
+            pd.internal_consistency(c, i, co)
+        for a in self.corpus_aspects:
+            for sig, msg in c.fails.get(a, []):
+                res.fail("%s|corpus|%s|%s" % (self.id, a, sig), "%s: %s" % (case["path"], msg))
+        res.evals = max(1, len(d["dis"]))
+        res.nt_keys = [[case["path"], i] for i, co in enumerate(d["dis"]) if "instrs" in co and (
+            co["codelen"] > 255 or any(x_["n"] == "EXTENDED_ARG" for x_ in co["instrs"]) or co.get("labels"))]
+        res.classes = ["source:corpus", "corpus-version:" + c.version]
+        res.sample = {"corpus_file": case["path"], "version": c.version, "code_objects": len(d["dis"]),
+                      "oracle": "internal consistency (no reference interpreter needed)"}
+        return res
+
     def judge(self, case, ctx):
         res = Result()
+        if case.get("k") == "corpus" and self.corpus_aspects:
+            return self.judge_corpus_internal(case, ctx)
         if case.get("k") not in ("prog", "stdlib", "asm", "lnotab", "loctab") or case.get("v") not in ALL_VERSIONS:
             res.reject = "malformed-case"
             return res
